@@ -562,15 +562,98 @@ def enclosing_stmt(node):
     return n
 
 
+def _local_names(fnode):
+    cached = getattr(fnode, "_sa_locals", None)
+    if cached is not None:
+        return cached
+    names = set()
+    if isinstance(fnode, (ast.FunctionDef, ast.AsyncFunctionDef, ast.Lambda)):
+        a = fnode.args
+        for x in a.posonlyargs + a.args + a.kwonlyargs:
+            names.add(x.arg)
+        if a.vararg:
+            names.add(a.vararg.arg)
+        if a.kwarg:
+            names.add(a.kwarg.arg)
+    for n in ast.walk(fnode):
+        if isinstance(n, ast.Name) and isinstance(n.ctx, (ast.Store, ast.Del)):
+            names.add(n.id)
+        elif isinstance(n, ast.ExceptHandler) and n.name:
+            names.add(n.name)
+        elif isinstance(n, ast.Lambda):
+            for x in n.args.args:
+                names.add(x.arg)
+    names -= {"self", "cls"}
+    try:
+        fnode._sa_locals = names
+    except Exception:
+        pass
+    return names
+
+
+class _Alpha(ast.NodeTransformer):
+    def __init__(self, local):
+        self.local = local
+        self.map = {}
+
+    def _n(self, name):
+        if name not in self.map:
+            self.map[name] = "_%d" % (len(self.map) + 1)
+        return self.map[name]
+
+    def visit_Name(self, node):
+        if node.id in self.local:
+            return ast.copy_location(ast.Name(id=self._n(node.id), ctx=node.ctx), node)
+        return node
+
+    def visit_arg(self, node):
+        if node.arg in self.local:
+            node.arg = self._n(node.arg)
+        return node
+
+    def visit_ExceptHandler(self, node):
+        self.generic_visit(node)
+        if node.name and node.name in self.local:
+            node.name = self._n(node.name)
+        return node
+
+
+def alpha_src(node):
+    """Source text of a node with the enclosing function's local names replaced by positional
+    placeholders (_1, _2, ... in order of appearance): finding keys survive renaming of locals."""
+    fn = enclosing_function(node) if not isinstance(node, (ast.FunctionDef, ast.AsyncFunctionDef)) \
+        else node
+    local = set()
+    f = fn
+    while f is not None:
+        local |= _local_names(f)
+        f = enclosing_function(f)
+    try:
+        import copy as _copy
+        clone = _copy.deepcopy(node) if not hasattr(node, "_parent") else ast.parse(
+            unparse(node)).body[0] if isinstance(node, ast.stmt) else ast.parse(
+            unparse(node), mode="eval").body
+    except SyntaxError:
+        return " ".join(unparse(node).split())
+    clone = _Alpha(local).visit(clone)
+    return " ".join(unparse(clone).split())
+
+
 def norm_src(node):
-    """Normalised statement/expression text used to key findings (never line numbers)."""
+    """Normalised statement/expression text used to key findings: never line numbers, and local
+    variable names are alpha-renamed."""
     if isinstance(node, (ast.If, ast.While)):
-        return "%s %s" % (type(node).__name__.lower(), unparse(node.test))
+        return "%s %s" % (type(node).__name__.lower(), alpha_src(node.test))
     if isinstance(node, ast.For):
-        return "for %s in %s" % (unparse(node.target), unparse(node.iter))
+        hdr = ast.For(target=node.target, iter=node.iter, body=[ast.Pass()], orelse=[])
+        ast.copy_location(hdr, node)
+        hdr._parent = getattr(node, "_parent", None)
+        txt = alpha_src(hdr)
+        return txt[:-6] if txt.endswith(": pass") else txt
     if isinstance(node, (ast.FunctionDef, ast.ClassDef)):
         return "def %s" % node.name
     if isinstance(node, ast.Try):
         return "try"
-    s = unparse(node)
-    return " ".join(s.split())
+    if isinstance(node, ast.ExceptHandler):
+        return "except %s" % (unparse(node.type) if node.type is not None else "")
+    return alpha_src(node)
